@@ -120,6 +120,28 @@ CHECKS = {
         note="trusted: shim I/O script (forwarding to a real descriptor), one-shot parse as reference; EINTR retry policy not asserted"),
 }
 
+
+MORE = {
+    "C01": " One text in eight is parsed twice by one parser with every scalar of the first result changed in place in between; ties between adjacent doubles broken by a digit up to 5000 places on.",
+    "C02": " Trees also reach their value through in-place mutation (setters, int_inc, userdata attached afterwards), deep copies, custom/reset serializers; strings of specially treated code points; trees 64-300 levels deep.",
+    "C03": " Also: the last piece handed over as a C string (len=-1), empty pieces as (NULL,0), single tokens of 4k-70k bytes under random partitions (one-shot references computed lazily).",
+    "C06": " Also: operations through lh_table_* on json_object_get_object(), seven iteration forms (incl. lh_foreach_safe and backwards), hash function switched away and back on live objects, and OLONGRUN: runs of up to 90 000 occupied slots with one member that far from its home slot.",
+    "C07": " Also: one operation in eight through array_list_* on json_object_get_array() (accessors must agree after every step), value-order sorts with elements changed in place, arrays of millions of slots with targets at 1.6x-2.3x of what is owned.",
+    "C09": " Also: copy callbacks answering 2, string hash switched between compared trees / source and copy, serializer-function-only nodes, trees nested 300-5000 levels.",
+    "C10": " A quarter of the cases end with a round of getters entered with a stale errno (values asserted).",
+    "C11": " Sources of a set include the node's own bytes (any offset) and its own serialization.",
+    "C12": " Also: indices that wrap onto existing elements modulo 2^32/2^64, trees and pointers 30-150 levels further down.",
+    "C13": " Also: patches applied without an error struct, documents and paths 30-150 levels further down.",
+    "C14": " Also: tokeners and trees that are older than the locale configuration, and a 2 GiB text with len=-1 (the size outcome with a real text).",
+    "C15": " Also: limits of 2^26+1 .. 2^28+1 records, comments inside empty containers at the boundary.",
+    "C16": " Also: STRICT|ALLOW_TRAILING on extensions inside the value, default and strict mode fed in pieces, one strict parser across documents, runs of up to 300 leading zeros, trailing bytes that begin with a slash.",
+    "C17": " Trees nested up to 6000 levels.",
+    "C18": " Also: holders that release by overwriting/replacing/deleting the slot holding their reference, the default hash re-selected before the late seed observation, a thread's own double format surviving a change of the process-wide one.",
+    "C19": " Also: requests sized as 1.001x-2.6x of the current capacity at 64 KiB / MiB / 8 MiB, the fast-append macro with an unsigned length, own contents through %s, and PBGIANT: one buffer taken to INT_MAX-64 bytes (2 GiB) and asked for a little more in every way.",
+    "C20": " Also: all 64 flag sets, reads that start in the middle of a file, directories, early nesting errors followed by more read blocks, depth limits <= 0.",
+    "C08": " Workloads include documents split inside long tokens at every growth point of the scratch buffer, unpaired-surrogate escapes at those points, and a tokener reset and reused after tokens of up to 5 MB.",
+}
+
 NOT_YET = {}
 
 ALL = ["C%02d" % i for i in range(1, 21)]
@@ -138,7 +160,7 @@ def main():
             "evidence_file": "/verif/evidence/%s.json" % pid,
             "replay_cmd_template": "./vf replay {path}",
             "engine": "vf",
-            "level_claimed": {"category": c["level"], "text": c["text"], "design_ref": c["design"]},
+            "level_claimed": {"category": c["level"], "text": c["text"] + MORE.get(pid, ""), "design_ref": c["design"]},
             "level_note": c["note"],
             "technique": c["technique"],
         })
